@@ -18,7 +18,7 @@ keys come from get_enc_key/get_dec_key of the same session;
 (d) Session::is_for_rx's result depends on local_sess_id, peer_addr, peer_nodeid, reserved and on the encryption
 kind of both the session and the header; dec_key/enc_key readers are confined.
 """
-CLAUSES = ['e: header writer/reader tables agree; group counter state only after authentication', 'a: state touched only after decode success', 'b: AAD = serialized plain header', 'c: nonce = flags|counter|source node, keys of that session',
+CLAUSES = ['e: header writer/reader tables agree; group counter state only after authentication', 'a: state touched only after decode success; a refused frame changes no session state', 'b: AAD = serialized plain header', 'c: nonce = flags|counter|source node, keys of that session',
            'd: session selection depends on all discriminators']
 NOT_DECIDED = ['that every header bit is covered by the tag (AES-CCM property)', 'rejection of each single-bit flip', 'byte-level round trip (see C17)']
 MIN_OBLIGATIONS = {'q': 25, 'd': 20, 'r': 20}
